@@ -1228,13 +1228,19 @@ impl C02 {
         // ---- what the adjacent pairs of the run select in a generated format 2 kern sub-table ----
         // (counted before shaping: the font has no GSUB / morx, so this is the run that is kerned;
         // without a GPOS table the kern table is applied unconditionally)
+        let mut kern2_end_pair = false;
         let kern2_prefix = if fc.kern2_gpos { "kern2-gpos-without-kern" } else { "kern2" };
         if let Some(k) = &fc.kern2 {
             if k.certain().is_some() {
                 cx.class(&format!("{}:call-with-reachable-format2-subtable", kern2_prefix));
             }
             for c in kern::pair_classes(k, &before) {
+                // with a GPOS table the kern table is consulted only when 'kern' is asked for
+                let c = if fc.kern2_gpos { c.replace("pair-looked-up-", "pair-") } else { c.to_string() };
                 cx.class(&format!("{}:{}", kern2_prefix, c));
+                if c.ends_with("at-array-end") || c.ends_with("at-array-last-byte") {
+                    kern2_end_pair = true;
+                }
             }
         }
         // ---- tuple ----
@@ -1358,6 +1364,11 @@ impl C02 {
                     cx.class(&format!("{}:run-with-valued-pair", kern2_prefix));
                     if valued.iter().any(|&i| infos[i].kerning != 0) {
                         cx.class(&format!("{}:format2-value-observed-in-run", kern2_prefix));
+                        if kern2_end_pair {
+                            // the kern table was applied to this very run, so the pair at the end
+                            // of the array was looked up as well
+                            cx.class(&format!("{}:array-end-pair-in-run-with-observed-format2-value", kern2_prefix));
+                        }
                     }
                 }
             }
